@@ -1,5 +1,5 @@
 SPECIFICATION Spec
 CONSTANTS
- N = 5
+ N = 6
  MaxSpans = 2
 CHECK_DEADLOCK FALSE
